@@ -59,6 +59,18 @@ def combos(values=GRID_VALUES):
     return list(itertools.product(values, repeat=3))
 
 
+def large_magnitude_combos():
+    """Log-densities of large magnitude whose difference is exactly representable in float32 (so the code's own
+    arithmetic is exact and the comparison with the spec's real-valued formula needs no extra tolerance), with
+    moderate corrections: the correction must survive next to a log-density of 1e5 .. 3e7."""
+    out = []
+    for cur, deltas in ((-3.0e7, (0.0, 4.0, -2.0)), (-1.0e5, (0.0, 0.5, -1.5)), (2.0e6, (0.0, 1.0, -0.5))):
+        for d in deltas:
+            for corr in (-2.0, -0.5, 0.0, 0.25, 1.0, float("-inf"), float("nan")):
+                out.append((cur, cur + d, corr))
+    return out
+
+
 def find_zero_draw_keys(n_chunks=8):
     """Seeds whose jax.random.uniform draw is exactly 0.0.  Only used to *find*
     interesting keys; the verdict never depends on jax.random.uniform."""
